@@ -2,7 +2,8 @@
 """
 Evaluate seeded changes: apply each /verif/seeded/<id>/patch.diff to a scratch copy of /repo (never to /repo itself),
 run the quick check of the property it breaks (and optionally all checks), report which checks fire.
-usage: seeded.py [--all-checks] [--record] [ids...]   (--record writes round and check_result_at_commit into each meta.json)
+usage: seeded.py [--all-checks] [--record] [ids...]   (--record writes round and check_result_at_commit into each meta.json;
+--transform=unparse|black60|black120|rename re-formats the changed tree before checking it: robustness of the recognisers)
 """
 import json
 import os
@@ -17,7 +18,8 @@ ALL = [f"C{i:02d}" for i in range(1, 17)]
 
 
 def run_one(args):
-    sid, all_checks, repo = args
+    sid, all_checks, repo = args[:3]
+    tr_arg = args[3] if len(args) > 3 else None
     d = os.path.join(VERIF, "seeded", sid)
     meta = json.load(open(os.path.join(d, "meta.json")))
     tmp = tempfile.mkdtemp(prefix="verif_seed_")
@@ -26,6 +28,12 @@ def run_one(args):
         r = subprocess.run(["patch", "-p1", "-s", "-i", os.path.join(d, "patch.diff")], cwd=os.path.join(tmp, "repo"), capture_output=True, text=True)
         if r.returncode != 0:
             return sid, meta, None, "patch does not apply: " + (r.stdout + r.stderr)[:200]
+        tr = tr_arg if tr_arg is not None else [a.split("=", 1)[1] for a in sys.argv if a.startswith("--transform=")]
+        if tr:
+            sys.path.insert(0, os.path.join(VERIF, "selftest"))
+            import transforms as T
+            for name in tr:
+                T.transform(name, os.path.join(tmp, "repo"))
         res = {}
         for pid in (ALL if all_checks else [meta["property"]]):
             env = dict(os.environ, VERIF_EVIDENCE_DIR=os.path.join(tmp, "ev"))
